@@ -175,6 +175,9 @@ def p2(chk):
 
 # ------------------------------------------------------------------------------ P3
 def p3(chk):
+    # indices of (nested) subscript places: compiled once, innermost first (shared with C19)
+    from .C19 import place_indices
+    place_indices(chk, require_order=True)
     e = mk_engine(chk)
     for q in ("ExprCompiler.visit_Tuple", "ExprCompiler.visit_List", "ExprCompiler.visit_LocalCall", "ExprCompiler.visit_GlobalCall",
               "ExprCompiler._compile_call_args", "ExprCompiler.visit_PartialApply", "ExprCompiler.visit_BarrierExpr", "ExprCompiler.visit_PanicExpr"):
